@@ -74,4 +74,41 @@ else:
         p1, p2, p3 = pinner_a.partial(1), pinner_b.partial(1), pinner_a.partial(2)
         if p1.hash == p2.hash or p1.hash == p3.hash:
             w = dict(check="partial task hash reflects the inner task and the bound arguments")
-finish(w is not None, witness=w, evaluations=n, bound="8 single-component mutations of a generated task definition, versioned/unversioned, option/include orderings, decorator trimming, partial tasks")
+if w is None and not ("same hash_includes data" in obl or "same call-time option overrides" in obl):
+    # a call-time override is part of the identity even when it restates the definition-time value, and the
+    # definition-time value never is
+    n += 3
+    if mk(base_opts={"memory": 4}, over={"memory": 4}).hash == mk(base_opts={"memory": 4}).hash:
+        w = dict(check="an override equal to the definition-time value must still change the hash", task="@task(memory=4) vs .options(memory=4)")
+    elif mk(base_opts={"memory": 4}, over={"memory": 4}).hash != mk(base_opts={"memory": 9}, over={"memory": 4}).hash:
+        w = dict(check="definition-time options must not affect the hash of a task with overrides")
+    elif mk(over={"vcpus": 2}).hash == mk(over={"vcpus": 2, "memory": 4}).hash:
+        w = dict(check="every override key takes part in the hash")
+if w is None and not ("same hash_includes data" in obl or "same call-time option overrides" in obl):
+    # decorator layouts: the same function under differently written decorators (one line, several lines, other
+    # definition-time options, stacked decorators) has one hash; loaded from real module files so that inspect works
+    import importlib.util, tempfile, shutil
+    d = tempfile.mkdtemp(prefix="c17_")
+    BODY = "def layout(x):\n    y = x + 1\n    return y\n"
+    DECOS = ["@task(namespace='c17l')\n",
+             "@task(namespace='c17l', memory=1)\n",
+             "@task(\n    namespace='c17l',\n    memory=2,\n)\n",
+             "@task(\n    namespace='c17l',\n    executor='default',\n    vcpus=3\n)\n",
+             "@task(namespace='c17l',\n      cache=False)\n"]
+    hs = []
+    try:
+        for i, deco in enumerate(DECOS):
+            n += 1
+            fn = os.path.join(d, f"c17_layout_{i}.py")
+            with open(fn, "w") as fh:
+                fh.write("from redun import task\n\n\n" + deco + BODY)
+            spec = importlib.util.spec_from_file_location(f"c17_layout_{i}", fn)
+            m = importlib.util.module_from_spec(spec)
+            spec.loader.exec_module(m)
+            hs.append((deco, m.layout.hash, m.layout.source))
+        if len({h for _, h, _ in hs}) != 1:
+            w = dict(check="the layout and the definition-time options of the decorator must not affect the task hash",
+                     hashes=[(d_.replace("\n", "\\n"), h[:10]) for d_, h, _ in hs], sources=[s_ for _, _, s_ in hs][:3])
+    finally:
+        shutil.rmtree(d, ignore_errors=True)
+finish(w is not None, witness=w, evaluations=n, bound="5 decorator layouts of one function loaded from module files, overrides equal to definition-time values, 8 single-component mutations of a generated task definition, versioned/unversioned, option/include orderings, decorator trimming, partial tasks")
